@@ -290,6 +290,12 @@ theorem gen_side_chunk_pos : 0 < Gen.Stream.sideChunk := by decide
 /-- the source's `tunnel.Read` refuses a reply longer than the caller's buffer -/
 theorem gen_tunnel_read_checked : Gen.Stream.tunnelReadChecked = true := by decide
 
+/-- `JoinConn` copies each direction with its own `io.Copy` over that direction's two connections:
+    the composition theorems above treat a direction as a function of its own stream only, and this
+    is the fact about the code that licenses it (a buffer shared by the two copy loops would let the
+    bytes of one direction into the other) -/
+theorem gen_join_private_buffers : Gen.Stream.joinPrivateBuffers = true := by decide
+
 theorem sideWrite_gen (buf : Bytes) : (sideWrite Gen.Stream.sideChunk buf).flatten = buf :=
   sideWrite_flatten _ gen_side_chunk_pos buf
 
